@@ -15,9 +15,14 @@ EXTRA = {
     "MI": {"mi.c": "#include \"nosuch.h\"\nvoid mi(void){int a[2];a[9]=0;}\n"},
     "RM": {"hdr.h": par.HDR, "rm.c": "// REMARK this is a remark\n#include \"hdr.h\"\nvoid rm(void){ hf(); }\n"},
     "MAC": {"mac.c": "#define BAD(a) a[3]=0\nvoid mac(void){int a[2]; BAD(a);}\n"},
+    # findings on the SAME line numbers as the inline suppressions of SI (line 3, arrayIndexOutOfBounds) and SU (line 2, zerodiv)
+    "EL3": {"el3.c": "\n\nvoid el3(void){int a[2];a[6]=0;}\n"},
+    "Z2": {"z2.c": "\nint z2(int x){ return x/0; }\n"},
+    # same base name in another directory, finding on the line SI suppresses in si.c
+    "DSI": {"sub/si.c": "\n\nvoid dsi(void){int a[2];a[7]=0;}\n"},
     "QML": {"m.qml": "import QtQuick 2.0\nItem { function f() { } }\n"},
 }
-ALPHA = ["E", "H1", "H2", "SI", "SU", "HS1", "HU1", "SM", "Y", "ERR", "MI", "RM", "MAC"]
+ALPHA = ["E", "H1", "H2", "SI", "SU", "HS1", "HU1", "SM", "Y", "ERR", "MI", "RM", "MAC", "EL3", "Z2", "DSI"]
 WHOLE = ("unusedFunction", "ctu", "checkersReport")
 
 
@@ -59,6 +64,7 @@ def main(tier, replay=None):
     seqs = [list(p) for n in range(2, L + 1) for p in itertools.permutations(ALPHA, n)]
     cases = [(s, eo) for s in seqs for eo in ([],)] + [(s, ["--emit-duplicates"]) for s in seqs if len(s) <= 2]
     states = set()
+    failing_pairs = set()
 
     def work(c):
         if ctx.expired():
@@ -82,8 +88,15 @@ def main(tier, replay=None):
             g, e = collections.Counter(gl or []), collections.Counter(exp)
             miss = sorted("%s@%s" % (k[0], k[5][-1][:2] if k[5] else "") for k in (e - g).elements())
             extra = sorted("%s@%s" % (k[0], k[5][-1][:2] if k[5] else "") for k in (g - e).elements())
-            # minimal: try to find a failing pair inside
+            # attribute to a failing ordered pair inside the sequence if there is one (pairs are enumerated first)
             key = "seq:" + ">".join(seq) + ("|dups" if eo else "")
+            if len(seq) == 2:
+                failing_pairs.add((seq[0], seq[1]))
+            else:
+                for a_, b_ in itertools.combinations(seq, 2):
+                    if (a_, b_) in failing_pairs:
+                        key = "seq:%s>%s" % (a_, b_) + ("|dups" if eo else "")
+                        break
             ctx.violation(key, "sequence %s %s: missing %s extra %s" % (seq, eo, miss[:4], extra[:4]),
                           {"sequence": seq, "opts": eo, "missing": miss, "extra": extra})
         if len(set(tuple(single[(l, tuple(eo))][0] or []) for l in seq)) > 1:
